@@ -246,10 +246,7 @@ Qed.
 
 Lemma view_alts_known o d v : In v (view_alts o d) -> known o d v.
 Proof.
-  unfold view_alts. destruct d as [x|ls e|ls e|c|]; try (intros []).
-  destruct (push_size_mismatch o) eqn:Ep; [|intros []]. intros [<-|[]].
-  destruct o; try discriminate Ep. unfold known, known_result. cbn [known_shape known_input].
-  unfold push_size_mismatch in Ep. rewrite Ep. discriminate.
+  unfold view_alts. intros [].
 Qed.
 
 (* ---------------------------------------------------------------- what the correspondence needs *)
